@@ -51,9 +51,10 @@ func vfDigest(h *types.BlockHeader) []byte { return (&types.Block{Header: h}).Bl
 // ChainService.addBlock; the cache must only ever refuse THAT content. Here: a forged block f (arbitrary header, Hash
 // field chosen by the sender) fails signature verification; afterwards a genuine block g with a different header must
 // not be refused by the cache.
-//   hashKind 0: f.Hash = H(f.header) (honest sender)          -> plain assertions
-//   hashKind 1: f.Hash = H(g.header) (sender announces g's id) -> F8: g is refused (known finding, class = this kind)
-//   hashKind 2: f.Hash = any other 32 bytes                    -> g must be accepted by the cache
+//
+//	hashKind 0: f.Hash = H(f.header) (honest sender)          -> plain assertions
+//	hashKind 1: f.Hash = H(g.header) (sender announces g's id) -> F8: g is refused (known finding, class = this kind)
+//	hashKind 2: f.Hash = any other 32 bytes                    -> g must be accepted by the cache
 func VF_C18_e_cache() {
 	l := vf.Param("fieldLen", 2)
 	fh := vfC18Header("f", l)
